@@ -773,3 +773,73 @@ BREAKING += [
     ('c4-labels-default-inverted', ['C03', 'C08'], [(A, _LBL_DEFAULT, "    if labels is not None:\n        labels = {}\n")]),
     ('c4-labels-always-fresh', ['C03', 'C08'], [(A, _LBL_DEFAULT, "    labels = {}\n")]),
 ]
+
+
+# ---- C13 round 5: substitutions that only pad characters; loops over literal local tables; custom-lexed line kinds ----
+_LEX_PAD = "    contents = contents.replace('(', ' ( ').replace(')', ' ) ')"
+_LEX_LITERALS = ("    # check for error literal (needs custom lexing)\n    match = RE_ERROR.match(line.contents)\n    if match is not None:\n        message = match.group(1)\n"
+                 "        message = message.encode('utf-8').decode('unicode_escape')\n        tokens = ['error', message]\n        return LineTokens(line, tokens)\n\n"
+                 "    # check for string literal (needs custom lexing)\n    match = RE_STRING.match(line.contents)\n    if match is not None:\n        value = match.group(1)\n"
+                 "        # unicode_escape decodes bytes as latin-1: keep non-ASCII text intact while processing escapes\n"
+                 "        value = value.encode('latin-1', 'backslashreplace').decode('unicode_escape')\n        tokens = ['string', value]\n        return LineTokens(line, tokens)\n")
+
+
+def _lex_table(second_regex, second_keyword="'string'", codec="('latin-1', 'backslashreplace')"):
+    return ("    literal_lexers = [\n        ('error', RE_ERROR, ('utf-8', 'strict')),\n        (" + second_keyword + ", " + second_regex + ", " + codec + "),\n    ]\n"
+            "    for keyword, regex, encode_args in literal_lexers:\n        match = regex.match(line.contents)\n        if match is not None:\n            text = match.group(1)\n"
+            "            text = text.encode(*encode_args).decode('unicode_escape')\n            tokens = [keyword, text]\n            return LineTokens(line, tokens)\n")
+
+
+BREAKING += [
+    # the substitution that pads the parens also swallows the character after them: `4(x2)` and `4( x2)` no longer lex alike
+    ('c13-pad-resub-swallow', ['C13'], [(A, _LEX_PAD, "    contents = re.sub(r'([()]).', r' \\1 ', contents)")]),
+    # a custom-lexed line kind recognised at column 0 only: an indented `string ...` line falls through to the token split
+    ('c13-string-no-indent', ['C13'], [(A, "    RE_STRING = re.compile(r'\\s*string (.*)')", "    RE_STRING = re.compile(r'string (.*)')")]),
+    # star-args from a literal tuple of the table: the wrong codec pair for `string` lines (non-ASCII text is mangled again)
+    ('c10-literal-table-codec', ['C10'], [(A, _LEX_LITERALS, _lex_table('RE_STRING', codec="('utf-8', 'strict')"))]),
+    ('c13-literal-table-no-indent', ['C13'], [(A, _LEX_LITERALS, _lex_table("re.compile(r'string (.*)')"))]),
+]
+
+PRESERVING += [
+    ('p13-pad-resub', ['C13'], [(A, _LEX_PAD, "    contents = re.sub(r'([()])', r' \\1 ', contents)")]),
+    ('p13-pad-resub-whole-match', ['C13'], [(A, _LEX_PAD, "    contents = re.sub(r'[()]', r' \\g<0> ', contents)")]),
+    ('p13-pad-resub-alternation', ['C13'], [(A, _LEX_PAD, "    contents = re.sub(r'(\\(|\\))', ' \\\\1 ', contents)")]),
+    ('p13-literal-table', ['C13', 'C10'], [(A, _LEX_LITERALS, _lex_table('RE_STRING'))]),
+    ('p13-string-lstrip', ['C13'], [(A, "    RE_STRING = re.compile(r'\\s*string (.*)')", "    RE_STRING = re.compile(r'string (.*)')"),
+                                    (A, "    match = RE_STRING.match(line.contents)", "    match = RE_STRING.match(line.contents.lstrip())")]),
+]
+
+UNDECIDED += [
+    ('u13-pad-resub-run', ['C13'], [(A, _LEX_PAD, "    contents = re.sub(r'([()]+)', r' \\1 ', contents)")]),
+    ('u13-literal-table-mislabel', ['C13'], [(A, _LEX_LITERALS, _lex_table('RE_ERROR'))]),
+]
+
+
+# ---- C13 R13.7: is_int as a regular expression, decided as language equality with int(text, 0) (bbverif/intlang.py) ----
+_IS_INT = "def is_int(value):\n    try:\n        int(value, base=0)\n        return True\n    except:\n        return False\n"
+_INT_EXACT = "[+-]?(?:0[xX](?:_?[0-9a-fA-F])+|0[bB](?:_?[01])+|0[oO](?:_?[0-7])+|[1-9](?:_?[0-9])*|0(?:_?0)*)"
+
+
+def _is_int_regex(pattern, how='fullmatch', flags=''):
+    return ("RE_INT = re.compile(r'" + pattern + "'" + flags + ")\n\n\ndef is_int(value):\n    return RE_INT." + how + "(value) is not None\n")
+
+
+BREAKING += [
+    ('c13-isint-regex-lowercase', ['C13'], [(A, _IS_INT, _is_int_regex('[+-]?(0x[0-9a-f]+|0b[01]+|0o[0-7]+|[0-9]+)$', 'match'))]),
+    # right on every sample spelling one would think of, wrong on `0_`-style and leading-zero texts: only the language comparison sees it
+    ('c13-isint-regex-leading-zero', ['C13'], [(A, _IS_INT, _is_int_regex('[+-]?(?:0[xX](?:_?[0-9a-fA-F])+|0[bB](?:_?[01])+|0[oO](?:_?[0-7])+|[0-9](?:_?[0-9])*)'))]),
+    ('c13-isint-regex-unanchored', ['C13'], [(A, _IS_INT, _is_int_regex(_INT_EXACT, 'match'))]),
+    ('c13-isint-regex-double-underscore', ['C13'], [(A, _IS_INT, _is_int_regex('[+-]?(?:0[xX][0-9a-fA-F_]+|0[bB][01_]+|0[oO][0-7_]+|[1-9][0-9_]*|0[0_]*)'))]),
+]
+
+PRESERVING += [
+    ('p13-isint-regex-exact', ['C13'], [(A, _IS_INT, _is_int_regex(_INT_EXACT))]),
+    ('p13-isint-regex-match-Z', ['C13'], [(A, _IS_INT, _is_int_regex(_INT_EXACT + '\\Z', 'match'))]),
+    ('p13-isint-regex-ignorecase', ['C13'], [(A, _IS_INT, _is_int_regex('[+-]?(?:0x(?:_?[0-9a-f])+|0b(?:_?[01])+|0o(?:_?[0-7])+|[1-9](?:_?[0-9])*|0(?:_?0)*)', 'fullmatch', ', re.IGNORECASE'))]),
+    ('p13-isint-regex-search-anchored', ['C13'], [(A, _IS_INT, _is_int_regex('^' + _INT_EXACT + '\\Z', 'search'))]),
+]
+
+UNDECIDED += [
+    # a look-ahead is outside the regular subset that is translated: agreement on the sample spellings is no proof
+    ('u13-isint-regex-lookahead', ['C13'], [(A, _IS_INT, _is_int_regex('(?=.)' + _INT_EXACT))]),
+]
